@@ -173,6 +173,10 @@ struct Structure {
     end_tags: Vec<(usize, usize)>,
     /// byte ranges of attributes (incl. the leading space)
     attributes: Vec<(usize, usize)>,
+    /// byte ranges of attribute values (between the quotes)
+    attr_values: Vec<(usize, usize)>,
+    /// byte ranges of non-blank element text (trimmed)
+    texts: Vec<(usize, usize)>,
 }
 fn scan(doc: &[u8]) -> Structure {
     let mut s = Structure::default();
@@ -213,6 +217,7 @@ fn scan(doc: &[u8]) -> Structure {
                         if let Some(q2) = tag[k + q1 + 1..].iter().position(|b| *b == b'"') {
                             let a_end = k + q1 + 1 + q2 + 1;
                             s.attributes.push((i + k, i + a_end));
+                            s.attr_values.push((i + k + q1 + 1, i + a_end - 1));
                             k = a_end;
                             continue;
                         }
@@ -226,6 +231,19 @@ fn scan(doc: &[u8]) -> Structure {
                 stack.push(i);
             }
         }
+        // element text following this tag
+        if let Some(nx) = doc[end..].iter().position(|b| *b == b'<') {
+            let (mut a, mut b) = (end, end + nx);
+            while a < b && doc[a].is_ascii_whitespace() {
+                a += 1;
+            }
+            while b > a && doc[b - 1].is_ascii_whitespace() {
+                b -= 1;
+            }
+            if b > a {
+                s.texts.push((a, b));
+            }
+        }
         i = end;
     }
     s
@@ -235,12 +253,15 @@ struct DocFaults {
     name: String,
     doc: Vec<u8>,
     deletions: Vec<(usize, usize, &'static str)>,
+    /// value faults: (start, end, replacement, what) -- an attribute value or an element text
+    /// replaced by another value of the same document or by a hostile constant
+    substitutions: Vec<(usize, usize, Vec<u8>, &'static str)>,
     corrupt: bool,
 }
 const CORRUPT: [u8; 8] = [b'<', b'>', b'/', b'"', b'&', b' ', 0x00, 0xFF];
 impl DocFaults {
     fn n_cases(&self) -> u64 {
-        (self.doc.len() as u64 + 1) + self.deletions.len() as u64 + if self.corrupt { self.doc.len() as u64 * (CORRUPT.len() as u64 + 2) } else { 0 }
+        (self.doc.len() as u64 + 1) + self.deletions.len() as u64 + self.substitutions.len() as u64 + if self.corrupt { self.doc.len() as u64 * (CORRUPT.len() as u64 + 2) } else { 0 }
     }
     fn case(&self, mut j: u64) -> (Vec<u8>, String) {
         let n = self.doc.len() as u64;
@@ -255,6 +276,15 @@ impl DocFaults {
             return (d, format!("document '{}' with {} at bytes {}..{} removed: {:?}", self.name, what, a, b, String::from_utf8_lossy(&self.doc[a..b.min(a + 60)])));
         }
         j -= self.deletions.len() as u64;
+        if (j as usize) < self.substitutions.len() {
+            let (a, b, rep, what) = &self.substitutions[j as usize];
+            let mut d = self.doc[..*a].to_vec();
+            d.extend_from_slice(rep);
+            d.extend_from_slice(&self.doc[*b..]);
+            let line_start = self.doc[..*a].iter().rposition(|c| *c == b'\n').map(|p| p + 1).unwrap_or(0);
+            return (d, format!("document '{}' with {} at bytes {}..{} ({:?}) replaced by {:?}; line: {:?}", self.name, what, a, b, String::from_utf8_lossy(&self.doc[*a..*b]), String::from_utf8_lossy(rep), String::from_utf8_lossy(&self.doc[line_start..(*b + 20).min(self.doc.len())])));
+        }
+        j -= self.substitutions.len() as u64;
         let per = CORRUPT.len() as u64 + 2;
         let pos = (j / per) as usize;
         let k = (j % per) as usize;
@@ -315,18 +345,62 @@ fn documents(tier: Tier) -> Vec<DocFaults> {
             deletions.extend(s.elements.iter().map(|(a, b)| (*a, *b, "the element subtree")));
             deletions.extend(s.end_tags.iter().map(|(a, b)| (*a, *b, "the end tag")));
             deletions.extend(s.attributes.iter().map(|(a, b)| (*a, *b, "the attribute")));
-            DocFaults { name, doc, deletions, corrupt }
+            // value faults.  Attribute values: every value replaced by every other distinct
+            // attribute value of the document (reference retargeting across element kinds, incl.
+            // self references and cycles; duplicate ids), by the empty string and by an unknown id.
+            // Element texts: replaced by hostile constants and by the other distinct texts.
+            let mut substitutions: Vec<(usize, usize, Vec<u8>, &'static str)> = vec![];
+            let big = doc.len() > 4096;
+            let mut distinct: Vec<Vec<u8>> = vec![];
+            for (a, b) in &s.attr_values {
+                let v = doc[*a..*b].to_vec();
+                if !distinct.contains(&v) && !v.starts_with(b"http") {
+                    distinct.push(v);
+                }
+            }
+            let consts: [&[u8]; 2] = [b"", b"NO_SUCH_ID"];
+            for (a, b) in &s.attr_values {
+                let cur = &doc[*a..*b];
+                if cur.starts_with(b"http") {
+                    continue;
+                }
+                for v in distinct.iter().map(|v| v.as_slice()).chain(consts.iter().copied()) {
+                    if v != cur {
+                        substitutions.push((*a, *b, v.to_vec(), "the attribute value"));
+                    }
+                }
+            }
+            let text_consts: [&[u8]; 7] = [b"-1", b"x", b"18446744073709551616", b"4294967296", b"1 2", b"&#0;", b"&bogus;"];
+            let mut dtexts: Vec<Vec<u8>> = vec![];
+            for (a, b) in &s.texts {
+                let v = doc[*a..*b].to_vec();
+                if !dtexts.contains(&v) && dtexts.len() < if big { 0 } else { 24 } {
+                    dtexts.push(v);
+                }
+            }
+            for (a, b) in &s.texts {
+                let cur = &doc[*a..*b];
+                for v in text_consts.iter().copied().chain(dtexts.iter().map(|v| v.as_slice())) {
+                    if v != cur {
+                        substitutions.push((*a, *b, v.to_vec(), "the element text"));
+                    }
+                }
+            }
+            if !corrupt {
+                // the large sample is only cut, deleted from and value-substituted in the quick tier
+            }
+            DocFaults { name, doc, deletions, substitutions, corrupt }
         })
         .collect()
 }
 
 pub fn run(ctx: &Ctx) {
-    ctx.set_rule("case = (document, fault) or a bad path list; faults: EVERY truncation offset of every document, deletion of every single element subtree / end tag / attribute, every byte replaced by each of '<' '>' '/' '\"' '&' ' ' NUL 0xFF, its low bit flipped and its case bit flipped; each case is one load in a worker process under a wall-clock deadline; non-trivial = the faulty content differs from the intact document");
+    ctx.set_rule("case = (document, fault) or a bad path list; faults: EVERY truncation offset of every document, deletion of every single element subtree / end tag / attribute, every attribute value replaced by every other distinct attribute value of the document (reference retargeting incl. self references and cycles, duplicate ids), by \"\" and by an unknown id, every element text replaced by hostile constants and by the other texts of the document, every byte replaced by each of '<' '>' '/' '\"' '&' ' ' NUL 0xFF, its low bit flipped and its case bit flipped; each case is one load in a worker process under a wall-clock deadline; non-trivial = the faulty content differs from the intact document");
     ctx.assume(&format!("hang detection by wall clock: a healthy load takes < 30 ms (measured maximum); deadline {:?}, and a case that misses it is re-run alone with {:?} before it is called a hang; the run stops after {} confirmed hangs", DEADLINE, SOLO_DEADLINE, MAX_HANGS));
     ctx.assume("every loop iteration in read_event/read_pdu/read_frame consumes input except at end of file, where quick-xml keeps answering Eof: a hang needs 'Eof reached inside an inner loop', and every (loop, cut point) pair is in the truncation space");
     std::fs::create_dir_all(scratch_root()).ok();
     let docs = documents(ctx.tier);
-    ctx.put("documents", json!(docs.iter().map(|d| json!({"name": d.name, "bytes": d.doc.len(), "structural_deletions": d.deletions.len(), "byte_corruption": d.corrupt})).collect::<Vec<_>>()));
+    ctx.put("documents", json!(docs.iter().map(|d| json!({"name": d.name, "bytes": d.doc.len(), "structural_deletions": d.deletions.len(), "value_substitutions": d.substitutions.len(), "byte_corruption": d.corrupt})).collect::<Vec<_>>()));
     let mut bounds = vec![];
     let mut total = 0u64;
     for d in &docs {
